@@ -21,7 +21,11 @@ RULE = (
     "independent of earlier inferences in the process (a counted variant in "
     "between) and of the way the sets reached an Event (substitution of an "
     "event type through the Event API, gate tree read before and after). "
-    "Distinct by "
+    "The same trees are inferred again under four naming schemes "
+    "(names that are concatenations of each other, whole words likewise, "
+    "names that are process-tree operator tokens, names differing by white "
+    "space): the verdict must not depend on how events are called; the "
+    "name 'tau' is an open finding and is not generated. Distinct by "
     "the tree itself; non-trivial: >=3 leaves and >=2 operator kinds.")
 ASSUMPTIONS = [
     "outcome semantics of AND/OR/XOR as written in vlib of this file (30 "
@@ -33,6 +37,26 @@ EXHAUSTIVE = ("quick", "thorough")
 
 LABELS = "abcdefg"
 OPS = ("AND", "OR", "XOR")
+# naming schemes: event types are arbitrary strings, the inferred gates must
+# not depend on how the events are called.  Every labelled tree is enumerated
+# (set partitions of labelled leaves), so one assignment per scheme puts
+# every name at every position.
+NAMINGS = {
+    "concatenations": ["a", "b", "ab", "ba", "aab", "abab"],
+    "concatenated_words": ["check", "out", "checkout", "outcheck",
+                           "checkoutout", "outout"],
+    "operator_tokens": ["X", "+", "O", "->", "*", "( a, b )"],
+    "white_space": ["a b", "a  b", "a b ", "a", "b", " a"],
+}
+# an event type called "tau" is taken for pm4py's silent leaf (open finding
+# C06-event-named-tau): never generated, replayed on every run
+RESERVED_NAMINGS = {"tau_as_event_name": ["tau", "X", "+", "O", "->", "*"]}
+
+
+def rename(t, mp):
+    if isinstance(t, str):
+        return mp.get(t, t)
+    return (t[0], tuple(rename(k, mp) for k in t[1]))
 
 
 # ---- enumeration ---------------------------------------------------------
@@ -269,7 +293,10 @@ def replay(case):
         if case.get("interleaved"):
             check_interleaved(from_json(case["tree"]))
             return None
-        check_tree(from_json(case["tree"]))
+        t = from_json(case["tree"])
+        if case.get("names"):
+            t = rename(t, dict(zip(LABELS, case["names"])))
+        check_tree(t)
     except Violation as v:
         return str(v)
     return None
@@ -335,6 +362,16 @@ def run_shard(ctx):
             except Violation as v:
                 ctx.violation(case, str(v))
                 return
+            if n >= 2 and (n <= 4 or idx % 5 == 0):
+                for scheme, names in NAMINGS.items():
+                    ctx.count("renamed_trees_" + scheme)
+                    try:
+                        check_tree(rename(t, dict(zip(LABELS, names))))
+                    except Violation as v:
+                        ctx.violation(dict(case, names=names),
+                                      f"[naming scheme {scheme}] " + str(v))
+                        return
+                ctx.exclude("C06-event-named-tau")
             if n <= 4 or idx % 5 == 0:
                 ctx.count("interleaved_and_event_api_checks")
                 try:
